@@ -90,3 +90,127 @@ def ret_exprs(fi):
     from ..model import own_nodes
     return [n.value for n in own_nodes(fi)
             if isinstance(n, ast.Return) and n.value is not None]
+
+
+# ---------------------------------------------------------------------------
+# typed memoisation: equal-but-differently-typed Excel values share a cache slot
+# ---------------------------------------------------------------------------
+NUMERIC_KINDS = {'bool', 'int', 'float', 'bool_', 'number', 'integer', 'floating'}
+
+
+def _inspects_kind(ctx, g, seen=None, depth=0):
+    """Does g (or an exact callee fed by g's parameters) test whether a
+    parameter-derived value is a bool/int/float?  Returns a description or None."""
+    from ..model import own_nodes, norm_src
+    from ..errflow import ErrFlow
+    seen = seen if seen is not None else set()
+    if g.fq in seen or depth > 3:
+        return None
+    seen.add(g.fq)
+    ef = ErrFlow(ctx)
+    der = ef.derived(g)
+    for n in own_nodes(g):
+        if isinstance(n, ast.Call) and isinstance(n.func, ast.Name) and \
+                n.func.id == 'isinstance' and len(n.args) == 2:
+            if not ef.sources(g, n.args[0], der):
+                continue
+            t = n.args[1]
+            elts = t.elts if isinstance(t, ast.Tuple) else [t]
+            names = {norm_src(e).split('.')[-1] for e in elts}
+            if names & NUMERIC_KINDS:
+                return '%s:%d `%s`' % (g.module.rel, n.lineno, norm_src(n))
+        if isinstance(n, ast.Call) and isinstance(n.func, ast.Name) and \
+                n.func.id == 'type' and n.args and ef.sources(g, n.args[0], der):
+            return '%s:%d `%s`' % (g.module.rel, n.lineno, norm_src(n))
+    for n in own_nodes(g):
+        if isinstance(n, ast.Call):
+            if not any(ef.sources(g, a, der) for a in n.args):
+                continue
+            for ed in ctx.cg._resolve_callee(g, n.func, n, 'call'):
+                if ed.is_ext or ed.precision != 'exact':
+                    continue
+                r = _inspects_kind(ctx, ed.dst, seen, depth + 1)
+                if r:
+                    return r
+    return None
+
+
+def untyped_memo_hazards(ctx):
+    """[(function, decorator node, evidence)] for memoised functions whose result
+    depends on the *kind* (bool vs number) of an argument while the cache key
+    does not (functools.lru_cache without typed=True: 1 == 1.0 == True)."""
+    out = []
+    for g in ctx.project.functions.values():
+        for d in g.decorators():
+            fn = d.func if isinstance(d, ast.Call) else d
+            r = ctx.project.resolve_expr(g.module, fn)
+            if not (r and r[0] == 'ext' and r[1] in ('functools.lru_cache',
+                                                      'functools.cache')):
+                continue
+            typed = isinstance(d, ast.Call) and any(
+                k.arg == 'typed' and isinstance(k.value, ast.Constant)
+                and k.value.value for k in d.keywords)
+            if typed or not g.all_params:
+                continue
+            ev = _inspects_kind(ctx, g) or _returns_mixed_param(ctx, g)
+            if ev:
+                out.append((g, d, ev))
+    return out
+
+
+def _returns_mixed_param(ctx, g):
+    """A memoised function that hands one of its own arguments back (possibly
+    inside a tuple) while that argument is of mixed kinds (the function tests
+    its type with isinstance): the cached object of the first caller is
+    returned to callers passing an equal value of another kind."""
+    from ..model import own_nodes, norm_src
+    s = ctx.effects.summ.get(g.fq)
+    if s is None:
+        return None
+    back = set(s.returns_alias) | set(s.returns_elem)
+    if s.returns_tuple:
+        for a, b in s.returns_tuple:
+            back |= set(a) | set(b)
+    for n in own_nodes(g):
+        if isinstance(n, ast.Call) and isinstance(n.func, ast.Name) and \
+                n.func.id == 'isinstance' and len(n.args) == 2 and isinstance(
+                n.args[0], ast.Name) and n.args[0].id in back and \
+                n.args[0].id in g.all_params:
+            return '%s:%d returns its argument `%s`, whose type it tests ' \
+                   '(`%s`)' % (g.module.rel, n.lineno, n.args[0].id, norm_src(n))
+    return None
+
+
+def rule_memo(ctx, prop, rule, regs):
+    """No memoised function reachable from `regs` conflates values of different kinds."""
+    from ..util import key_of
+    rr = RuleResult(prop, rule, 'EFF',
+                    'memoised helpers keyed by value must not depend on the '
+                    'kind (logical vs number) of that value', floor=1)
+    roots = []
+    for reg in regs:
+        f, _ = reg_targets(ctx, reg, include_wrappers=True)
+        roots += [x for x in f if x not in roots]
+    reach = ctx.cg.reachable(roots)
+    memo = [g for g in ctx.project.functions.values()
+            if ctx.effects.is_memoised(g) and g.fq in reach]
+    hazards = {g.fq: (g, d, ev) for g, d, ev in untyped_memo_hazards(ctx)}
+    rr.instances = max(1, len(memo))
+    for g in memo:
+        if g.fq in hazards:
+            _, d, ev = hazards[g.fq]
+            rr.fail(key_of(g, 'untyped memo on kind-dependent function'),
+                    '%s is memoised with an untyped cache but its result '
+                    'depends on whether an argument is a logical or a number '
+                    '(%s): 1, 1.0 and TRUE compare equal and share one cache '
+                    'slot, so the first one evaluated decides the others' % (
+                        g.qualname, ev), file=g.module.rel,
+                    function=g.qualname, line=g.lineno,
+                    path=ctx.cg.path_to(reach, g.fq))
+        else:
+            rr.ok('memoised %s does not depend on the kind of its arguments '
+                  '(or uses a typed cache)' % g.qualname,
+                  '%s:%d' % (g.module.rel, g.lineno))
+    if not memo:
+        rr.ok('no memoised function reachable', '', nontrivial=False)
+    return rr
